@@ -318,7 +318,8 @@ def run(ctx):
                     lits.append((b, s))
         if not lits:
             run.error("C11.R6: StoredProofInfo literal not found in lock_tx_context")
-        slate_param = [p[0] for n, p, a in lk.vars if n == "slate" and a > 0]
+        slp = c.param(lk, "slate", "slate::Slate")
+        slate_param = [slp] if slp is not None else []
         for b, s in lits:
             ra = [o for n, o in s["r"]["f"] if n == "receiver_address"][0]
             o = vf.origins(lk, ra)
